@@ -452,6 +452,8 @@ class CProgram:
             pr = Parser(toks, rel, defines).parse_unit()
             self.units[rel] = pr
             for k, f in pr.funcs.items():
+                if not os.environ.get('VERIF_NO_ALPHA'):
+                    c_alpha_normalise(f)
                 self.funcs[k] = f
             self.protos.update(pr.protos)
             self.globals.update(pr.globals)
@@ -461,6 +463,67 @@ class CProgram:
         if f is None:
             raise AnalysisError('anchor vanished: C function %s' % name)
         return f
+
+
+# ---- alpha-normalisation of C locals (see sa/alpha.py for the argument: any bijective renaming of locals is behaviour-preserving)
+_C_TABLE = None
+
+
+def c_locals(f):
+    out = []
+    for st in f.walk():
+        if isinstance(st, CDecl) and st.name not in out:
+            out.append(st.name)
+    return out
+
+
+def _c_rename(f, mp):
+    def fix(node):
+        if isinstance(node, ast.AST):
+            for n in ast.walk(node):
+                if isinstance(n, ast.Name) and n.id in mp:
+                    n.id = mp[n.id]
+        elif isinstance(node, list):
+            for x in node:
+                fix(x)
+    for st in f.walk():
+        if isinstance(st, CDecl):
+            if st.name in mp:
+                st.name = mp[st.name]
+            fix(st.init)
+            fix(st.array_init)
+            continue
+        for k, v in vars(st).items():
+            if k in ('body', 'orelse'):
+                continue
+            if isinstance(v, (ast.AST, list)):
+                fix(v)
+            elif hasattr(v, '__dict__') and not isinstance(v, (str, int)):
+                for k2, v2 in vars(v).items():
+                    if isinstance(v2, (ast.AST, list)):
+                        fix(v2)
+
+
+def c_alpha_normalise(f):
+    global _C_TABLE
+    if _C_TABLE is None:
+        import json
+        tp = os.path.join(os.path.dirname(os.path.abspath(__file__)), 'alpha_names_c.json')
+        _C_TABLE = json.load(open(tp)) if os.path.isfile(tp) else {}
+    rec = _C_TABLE.get(f.name)
+    if not rec:
+        return 0
+    from .alpha import pairing
+    cur = c_locals(f)
+    used = set(f.param_names())
+    for st in f.walk():
+        for v in vars(st).values():
+            if isinstance(v, ast.AST):
+                used |= {n.id for n in ast.walk(v) if isinstance(n, ast.Name)}
+    mp = pairing(cur, rec, forbidden=(used - set(cur)))
+    if mp:
+        _c_rename(f, mp)
+    return len(mp)
 
 
 def parse_all(root=None):
